@@ -1532,3 +1532,76 @@ func c01r6(c *Ctx, r *Report) {
 	})
 	r.floor("calls on the path from the query to term.text", n, 3)
 }
+
+// c18r9: the list of stored queries is bounded by --history-size wherever it is (re)built: when a query is
+// appended and when the file is loaded (D35: NewHistory carried the comment "limit the maximum number of
+// lines" but did not: a file longer than the limit was loaded in full and prev-history walked into entries
+// that are not among the most recent N).
+func c18r9(c *Ctx, r *Report) {
+	l := c.L
+	r.rule("C18-R9", "E (sibling agreement: every builder of the list applies the cap)", "P1",
+		"every function that stores a slice into History.lines compares the length of a value that flows into the stored slice with the size limit (the maxSize parameter or field)",
+		"a session started on a file longer than --history-size navigates to entries outside the most recent N")
+	fLines := l.Field("fzf", "History", "lines")
+	if fLines == nil {
+		r.unest("anchors", token.NoPos, nil, "anchor History.lines", "cannot resolve")
+		return
+	}
+	n := 0
+	for _, fn := range l.AllFuncs() {
+		if fn.Blocks == nil || fn.Pkg != l.pkg("fzf") {
+			continue
+		}
+		var stores []*ssa.Store
+		eachInstr(fn, func(in ssa.Instruction) {
+			if st, ok := in.(*ssa.Store); ok {
+				if fld, _ := fieldOf(st.Addr); fld == fLines {
+					stores = append(stores, st)
+				}
+			}
+		})
+		if len(stores) == 0 {
+			continue
+		}
+		isLimit := func(v ssa.Value) bool {
+			for w := range backwardSlice(v, nil, nil) {
+				if p, ok := w.(*ssa.Parameter); ok && p.Name() == "maxSize" {
+					return true
+				}
+				if fld, _ := loadedField(w); fld != nil && fld.Name() == "maxSize" {
+					return true
+				}
+			}
+			return false
+		}
+		for i, st := range stores {
+			n++
+			flows := backwardSlice(st.Val, nil, nil)
+			capped := false
+			eachInstr(fn, func(in ssa.Instruction) {
+				b, ok := in.(*ssa.BinOp)
+				if !ok {
+					return
+				}
+				switch b.Op {
+				case token.GTR, token.LSS, token.GEQ, token.LEQ:
+				default:
+					return
+				}
+				for _, pr := range [][2]ssa.Value{{b.X, b.Y}, {b.Y, b.X}} {
+					call, ok := pr[0].(*ssa.Call)
+					if !ok || calleeName(call.Common()) != "builtin.len" || !isLimit(pr[1]) {
+						continue
+					}
+					for w := range backwardSlice(call.Call.Args[0], nil, nil) {
+						if flows[w] {
+							capped = true
+						}
+					}
+				}
+			})
+			r.check(capped, fmt.Sprintf("%s:History.lines store #%d is capped", relName(fn), i+1), st.Pos(), fn, "the stored list was compared with the size limit", "the list is stored without comparing its length with the size limit")
+		}
+	}
+	r.floor("stores into History.lines", n, 2)
+}
